@@ -21,6 +21,7 @@ RULE = ("random permission tables (1..6 entries over 9 paths incl. nested, dupli
         "relative from another cwd) by the restricted user and by an all-permissive control user on a freshly reset tree: "
         "denied <=> 550 + tree and PWD unchanged; allowed <=> same replies and same tree as the control.  distinct = distinct "
         "(table, verb, target, alias, outcome); non-trivial = the table has an entry below the root.")
+RULE += ("  " + 'Also: allowed relative transfers with a CWD between mark and data connection give the same result as without the move; the same probe on a connection that another account used before (and looked at the path) gives the same result as on a fresh connection.')
 ASSUMPTIONS = ["ties between entries with the same path but different flags accept either entry", "MemoryPathIO back end"]
 REQUIRED_MONITORS = ["function_level", "wire_denied", "wire_allowed"]
 ANCHOR_FUNCTIONS = ['server.py:User.get_permissions', 'server.py:PathPermissions.__call__.<locals>.wrapper', 'server.py:Permission.is_parent']
